@@ -7,6 +7,7 @@ import Mathlib.Tactic.SplitIfs
 import Resvg.Geom.BBox
 import Resvg.Lemmas.Transform
 import Resvg.Generated.StateRestore
+import Resvg.Generated.FiniteGuards
 
 namespace Resvg.Props.C12
 open Resvg Resvg.Geom Resvg.Lemmas
@@ -188,5 +189,40 @@ theorem C12_leaky_conversion_displaces :
     act (convertInstanceLeaky ⟨1, 0, 0, 1, 0, 0⟩ ⟨1, 0, 0, 1, 60, 30⟩ (fun _ => none)).2 (0, 0) = (60, 30) ∧
     act (convertInstance ⟨1, 0, 0, 1, 0, 0⟩ ⟨1, 0, 0, 1, 60, 30⟩ (fun _ => none)).2 (0, 0) = (0, 0) := by
   constructor <;> decide +kernel
+
+/-! ### the absolute box of an image -/
+
+/-- `image::convert_inner`: the image group maps the image's own rect `0 0 w h` (its size in image
+    pixels / nested user units) onto the fitted view box `vx vy vw vh` inside the element rect -/
+def imageTs (w h vx vy vw vh : Rat) : Transform Rat := ⟨vw / w, 0, 0, vh / h, vx, vy⟩
+
+/-- the absolute box as the code computes it now: the own rect under the absolute transform -/
+def imageAbsBox (w h : Rat) (abs : Transform Rat) : LTRB Rat := (LTRB.fromXywh 0 0 w h).transform abs
+
+/-- … and before fix 5463222: the *element* rect under the same transform -/
+def imageAbsBoxOld (x y ew eh : Rat) (abs : Transform Rat) : LTRB Rat := (LTRB.fromXywh x y ew eh).transform abs
+
+/-- **every point of the image lies in its reported absolute box**, for any absolute transform; the
+    translator checks on every run that the source computes the box from the own rect -/
+theorem C12_image_abs_box_contains_image (w h : Rat) (abs : Transform Rat) (p : Rat × Rat)
+    (hp : Inside (LTRB.fromXywh 0 0 w h) p) :
+    Inside (imageAbsBox w h abs) (Transform.mapPoint abs p) ∧ Generated.imageAbsBoxFromOwnRect = true :=
+  ⟨C12_transformed_box_contains_image _ _ _ hp, by decide⟩
+
+/-- the former computation: a 2x2 image shown at 56,64 as 41x31 under an identity parent was reported
+    at 1204,1056 (and the corner pixel 0,0 of the image, painted at 56,64, is outside that box) -/
+theorem C12_old_image_abs_box_wrong :
+    (imageAbsBoxOld 56 64 41 31 (imageTs 2 2 56 64 41 31)).l = 1204 ∧
+    (imageAbsBox 2 2 (imageTs 2 2 56 64 41 31)).l = 56 ∧
+    (imageAbsBox 2 2 (imageTs 2 2 56 64 41 31)).r = 97 ∧
+    Transform.mapPoint (imageTs 2 2 56 64 41 31) (0, 0) = (56, 64) ∧
+    ¬ Inside (imageAbsBoxOld 56 64 41 31 (imageTs 2 2 56 64 41 31)) (Transform.mapPoint (imageTs 2 2 56 64 41 31) (0, 0)) := by
+  have h1 : (imageAbsBoxOld 56 64 41 31 (imageTs 2 2 56 64 41 31)).l = 1204 := by decide +kernel
+  have h4 : Transform.mapPoint (imageTs 2 2 56 64 41 31) (0, 0) = (56, 64) := by decide +kernel
+  refine ⟨h1, by decide +kernel, by decide +kernel, h4, ?_⟩
+  intro hin
+  unfold Inside at hin
+  rw [h4, h1] at hin
+  norm_num at hin
 
 end Resvg.Props.C12
